@@ -1,5 +1,5 @@
 (* C15 driver: one case per line
-     <id> c|x <op> <args> ...      object histories (C harness / C++ harness)
+     <id> c|x|g <op> <args> ...    object histories (C harness / C++ harness: reference<Obj> / reference<metatype>)
      <id> r|y <cop> <args> ...     the bare counter (C functions / C++ wrapper)
    prints "M <id> tok..." (mechanism model) and "S <id> tok..." (specification).
    token of an object history step:  <out>|<objects>|<slots>|<events>   (S: no events)
@@ -41,6 +41,7 @@ let nat s = nat_of_int (int_of_string s)
 let kind_of s = match s with
   | "buf" -> KBuf | "hbuf" -> KHBuf | "hcnt" -> KHCnt | "huni" -> KHUni | "gen" -> KGen | "mbuf" -> KMetaBuf
   | "cfg" -> KCfg | "top" -> KCfgTop | "reply" -> KReply | "raw" -> KRaw | "stream" -> KStream | "cxx" -> KCxx
+  | "iterf" -> KIterFd | "itern" -> KIterName | "xgen" -> KXGen
   | _ -> failwith ("bad kind " ^ s)
 
 let rec parse_ops toks = match toks with
@@ -69,6 +70,8 @@ let rec parse_ops toks = match toks with
   | "xdetach" :: s :: d :: r -> XDetach (nat s, nat d) :: parse_ops r
   | "xset" :: s :: d :: r -> XSetInst (nat s, nat d) :: parse_ops r
   | "xdrop" :: d :: r -> XDrop (nat d) :: parse_ops r
+  | "xgen" :: d :: r -> XGen (nat d) :: parse_ops r
+  | "xclone" :: s :: d :: r -> XClone (nat s, nat d) :: parse_ops r
   | t :: _ -> failwith ("bad op " ^ t)
 
 let rec parse_cops toks = match toks with
@@ -98,7 +101,7 @@ let () =
   let ic = open_in Sys.argv.(1) in
   List.iter (fun line ->
     match split_ws line with
-    | id :: ("c" | "x") :: ops ->
+    | id :: ("c" | "x" | "g") :: ops ->
       let ops = parse_ops ops in
       let (mo, mf) = mrun init ops in
       let ml = match mf with Some s -> [if leaked s then "L1" else "L0"] | None -> [] in
